@@ -142,6 +142,10 @@ class _Boom(RuntimeError):
     pass
 
 
+class _Interrupt(BaseException):
+    """an interrupt that is not an Exception (KeyboardInterrupt, SystemExit, ...)"""
+
+
 class _ProxyCursor:
     def __init__(self, cur, ctl):
         self._c, self._ctl = cur, ctl
@@ -175,14 +179,14 @@ class _ProxyConn:
 
 
 class _Ctl:
-    def __init__(self, fail_at):
-        self.n, self.fail_at, self.names = 0, fail_at, []
+    def __init__(self, fail_at, exc=_Boom):
+        self.n, self.fail_at, self.names, self.exc = 0, fail_at, [], exc
 
     def tick(self, name):
         self.n += 1
         self.names.append(name)
         if self.n == self.fail_at:
-            raise _Boom(name)
+            raise self.exc(name)
 
 
 BIG = (2, 12000, 8)          # a series block well beyond SQLite's default page cache (~2 MB): dirty pages reach the file before COMMIT
@@ -201,6 +205,13 @@ def sqlite_fault_traces():
 
 def _sqlite_faults(mod, real_connect, known, pairs, shape):
     traces = []
+    for interrupt in (False, True):
+        traces += _sqlite_faults_1(mod, real_connect, known, pairs, shape, interrupt)
+    return traces
+
+
+def _sqlite_faults_1(mod, real_connect, known, pairs, shape, interrupt):
+    traces = []
     for before, prev, new in pairs:
         k = 1
         while True:
@@ -211,7 +222,7 @@ def _sqlite_faults(mod, real_connect, known, pairs, shape):
                     if prev:
                         ckpt.save(folder, *prev, "sqlite", shape)
                         evs.append({"e": "save", "b": "sqlite", "run": prev[0], "rows": prev[1]})
-                    ctl = _Ctl(k)
+                    ctl = _Ctl(k, _Interrupt if interrupt else _Boom)
 
                     class _Shim:
                         def __getattr__(self, n):
@@ -227,7 +238,7 @@ def _sqlite_faults(mod, real_connect, known, pairs, shape):
                         raised = False
                         try:
                             ckpt.save(folder, *new, "sqlite", shape)
-                        except _Boom:
+                        except (_Boom, _Interrupt):
                             raised = True
                     finally:
                         mod.sqlite3 = orig
@@ -235,7 +246,7 @@ def _sqlite_faults(mod, real_connect, known, pairs, shape):
                         break                      # k is past the last statement
                     evs.append({"e": "interrupted", "b": "sqlite", "run": new[0], "rows": new[1], "point": ctl.names[-1]})
                     evs.append(ckpt.load(folder, "sqlite", known, [new] + ([prev] if prev else [])))
-                traces.append({"ev": evs, "before": before, "at": ctl.names[-1], "sub": f"statement {k}" + (" (large state)" if shape == BIG else ""), "file": "checkpoint.sqlite",
+                traces.append({"ev": evs, "before": before, "at": ctl.names[-1], "sub": f"statement {k}" + (" (large state)" if shape == BIG else "") + (" (BaseException)" if interrupt else ""), "file": "checkpoint.sqlite",
                                "real": outcome(evs[-1], prev, new), "predicted": None, "prev": prev, "new": new})
             finally:
                 shutil.rmtree(folder, ignore_errors=True)
